@@ -503,6 +503,7 @@ type Contract struct {
 	Each      []*Clause // "each q :: P(q)": established for tid(key) by every callback invocation, stable
 	EachVar   []string
 	Fresh     bool                 // result is a fresh allocation (lib)
+	AtCall    map[string][]*Clause // "atcall f requires P": P holds at every static call to f in this function
 	AtStore   map[string][]*Clause // "atstore T.f requires P": P holds at every store to field f of a T in this function
 	AtNew     map[string][]*Clause // "atnew T requires P": P holds wherever this function allocates a T
 	NoAlloc   bool
@@ -787,6 +788,27 @@ func (db *SpecDB) loadFile(path string, lib bool) error {
 				c := &Clause{Kind: "each", Tags: tags, Text: txt, E: e, Where: where, Ord: len(cur.Each) + 1}
 				cur.Each = append(cur.Each, c)
 				cur.EachVar = append(cur.EachVar, strings.TrimSpace(txt[:i]))
+				for _, t := range tags {
+					cur.Props[t] = true
+				}
+			case "atcall":
+				// atcall <callee name> requires [tags] expr : expr must hold at every static call to a function
+				// of that name in this function
+				tn, r2 := splitWord(rest)
+				w2, r3 := splitWord(r2)
+				if w2 != "requires" {
+					return fail(fmt.Errorf("atcall: expected `atcall <callee> requires <expr>`"))
+				}
+				tags, txt := parseTags(r3)
+				e, err := parseSpecExpr(txt)
+				if err != nil {
+					return fail(err)
+				}
+				if cur.AtCall == nil {
+					cur.AtCall = map[string][]*Clause{}
+				}
+				c := &Clause{Kind: "atcall", Tags: tags, Text: txt, E: e, Where: where, Ord: len(cur.AtCall[tn]) + 1}
+				cur.AtCall[tn] = append(cur.AtCall[tn], c)
 				for _, t := range tags {
 					cur.Props[t] = true
 				}
